@@ -128,6 +128,8 @@ namespace Cx
 variable {α : Type} [Scalar α]
 def ofRe (x : α) : Cx α := ⟨x, zero⟩
 def conj (z : Cx α) : Cx α := ⟨z.re, Scalar.neg z.im⟩
+/-- `-z` (`np.negative` / unary minus on a complex number): both components negated -/
+def neg (z : Cx α) : Cx α := ⟨Scalar.neg z.re, Scalar.neg z.im⟩
 def add (a b : Cx α) : Cx α := ⟨a.re +. b.re, a.im +. b.im⟩
 def sub (a b : Cx α) : Cx α := ⟨a.re -. b.re, a.im -. b.im⟩
 /-- (a+bi)(c+di) = (ac − bd) + (ad + bc)i, in this operation order -/
